@@ -18,6 +18,11 @@ MISSING = len(TYPES) + 1  # node without a type attribute
 BOGUS = "bogus_type"
 
 
+_EQ = {}
+_T = z3.BoolVal(True)
+_F = z3.BoolVal(False)
+
+
 class SymType:
     """a node type that may be symbolic; comparisons fork through the oracle"""
 
@@ -32,10 +37,25 @@ class SymType:
         if not isinstance(other, str):
             return False
         if other in TS:
-            return self.o.decide(self.term == TS[other])
+            return self._is(TS[other])
         if other == BOGUS:
-            return self.o.decide(self.term == UNSUPPORTED)
+            return self._is(UNSUPPORTED)
         return False
+
+    def _is(self, idx):
+        """decide term == idx; once the type is pinned on this path, other comparisons need no solver call"""
+        tid = self.term.get_id()
+        pin = self.o.cache.get(("pin", tid))
+        if pin is not None:
+            return pin == idx
+        key = (tid, idx)
+        t = _EQ.get(key)
+        if t is None:
+            t = _EQ[key] = (self.term, self.term == idx)
+        v = self.o.decide(t[1])
+        if v:
+            self.o.cache[("pin", tid)] = idx
+        return v
 
     def __ne__(self, other):
         return not self.__eq__(other)
@@ -155,19 +175,19 @@ class SymDiGraph:
 
     def present(self, n):
         if n in self.wnode:
-            return z3.BoolVal(self.wnode[n])
+            return _T if self.wnode[n] else _F
         if n in self.P and n not in self.fresh:
             return self.P[n]
-        return z3.BoolVal(False)
+        return _F
 
     def edge(self, u, v):
         w = self.wedge.get((u, v))
         if w is not None:
-            return z3.BoolVal(w)
+            return _T if w else _F
         if u in self.fresh or v in self.fresh:
-            return z3.BoolVal(False)
+            return _F
         e = self.E.get((u, v))
-        return e if e is not None else z3.BoolVal(False)
+        return e if e is not None else _F
 
     def type_term(self, n):
         w = self.wattr.get((n, "type"))
@@ -215,17 +235,17 @@ class SymDiGraph:
         return [(u, v) for u in self for v in self.successors(u)]
 
     def has_edge(self, u, v):
-        return u in self and v in self and self.o.decide(self.edge(u, v))
+        return self.o.decide(self.edge(u, v))
 
     def predecessors(self, n):
         if n not in self:
             raise real_nx.NetworkXError(f"The node {n} is not in the digraph.")
-        return iter([u for u in self.names() if self.o.decide(z3.And(self.present(u), self.edge(u, n)))])
+        return iter([u for u in self.names() if self.o.decide(self.edge(u, n))])
 
     def successors(self, n):
         if n not in self:
             raise real_nx.NetworkXError(f"The node {n} is not in the digraph.")
-        return iter([v for v in self.names() if self.o.decide(z3.And(self.present(v), self.edge(n, v)))])
+        return iter([v for v in self.names() if self.o.decide(self.edge(n, v))])
 
     def in_degree(self, n):
         return len(list(self.predecessors(n)))
